@@ -42,6 +42,7 @@ def gc_scenarios(prog: Program, iterations: int = 1) -> list[Scenario]:
             from ..scenarios import composite_type_of
 
             comp = composite_type_of(prog, e)
+            out.append(Scenario(prog, d, [MoveSpec("CompositeMove", [MoveSpec(e.name), MoveSpec(e.name)], criteria=ec)], iterations))  # plain composite: mixed insert/delete
             if comp is not None:
                 out.append(Scenario(prog, d, [MoveSpec(comp.name, [MoveSpec(e.name), 0], criteria=ec)], iterations))
                 out.append(Scenario(prog, d, [MoveSpec(comp.name, [MoveSpec(e.name), MoveSpec(e.name)], criteria=ec)], iterations))
